@@ -724,6 +724,23 @@ func refreshRing(r *ringDescriber) error {
 
 	prevHosts := r.session.ring.currentHosts()
 
+	// Remove the hosts that are gone before adding new ones: a replaced node may
+	// come back with a new host id on the address of the host it replaces, and
+	// the by-address index of the ring and the host selection policy can only
+	// hold one host per address.
+	reported := make(map[string]struct{}, len(hosts))
+	for _, h := range hosts {
+		if !r.session.cfg.filterHost(h) {
+			reported[h.HostID()] = struct{}{}
+		}
+	}
+	for hostID, host := range prevHosts {
+		if _, ok := reported[hostID]; !ok {
+			r.session.removeHost(host)
+			delete(prevHosts, hostID)
+		}
+	}
+
 	for _, h := range hosts {
 		if r.session.cfg.filterHost(h) {
 			continue
